@@ -16,6 +16,14 @@ MAX_HEAD_COLS = 5
 _ROW_GAP = object()
 
 
+class _HiddenCols(str):
+	"""Header cell standing for the hidden middle columns of a wide table."""
+
+
+# Compared by identity, so that a column really named '...' is still a name.
+_HIDDEN = _HiddenCols("...")
+
+
 def set_repr_rows(n: int | None):
 	"""Set the default number of rows shown in Table.__repr__.
 	
@@ -195,17 +203,17 @@ def _header_rows(display_names, sanitized_names, dtypes):
 	Returns (header_rows, show_types_in_header) where show_types_in_header indicates
 	whether types are heterogeneous and should be shown in header instead of footer.
 	"""
-	any_display = any(n for n in display_names if n != "...")
+	any_display = any(n for n in display_names if n is not _HIDDEN)
 	
 	# Only show dot-access row if there's a structural change, not just case
 	any_structural_change = any(
 		_is_structural_change(disp, san)
 		for disp, san in zip(display_names, sanitized_names)
-		if disp != "..." and san != "..."
+		if disp is not _HIDDEN and san is not _HIDDEN
 	)
 
 	# Check if types are homogeneous (excluding "...")
-	unique_types = set(dt for dt in dtypes if dt != "...")
+	unique_types = set(dt for dt in dtypes if dt is not _HIDDEN)
 	show_types_in_header = len(unique_types) > 1
 
 	rows = []
@@ -214,7 +222,7 @@ def _header_rows(display_names, sanitized_names, dtypes):
 	if any_display:
 		row = []
 		for name in display_names:
-			if name == "...":
+			if name is _HIDDEN:
 				row.append("...")
 			elif _needs_quote(name):
 				row.append(repr(name))
@@ -224,11 +232,11 @@ def _header_rows(display_names, sanitized_names, dtypes):
 
 	# Row 2: sanitized names (only if structural change or no display names)
 	if any_structural_change or not any_display:
-		rows.append([("." + san) if san and san != "..." else san for san in sanitized_names])
+		rows.append([("." + san) if san and san is not _HIDDEN else san for san in sanitized_names])
 
 	# Row 3 (or 2): type annotations (only if heterogeneous)
 	if show_types_in_header:
-		rows.append([f"[{dt}]" if dt != "..." else "..." for dt in dtypes])
+		rows.append([f"[{dt}]" if dt is not _HIDDEN else "..." for dt in dtypes])
 
 	return rows, show_types_in_header
 
@@ -375,9 +383,9 @@ def _repr_table(tbl) -> str:
 	if truncated:
 		ellipsis_col = ["..." for _ in range(len(formatted_cols[0]))]
 		formatted_cols.insert(MAX_HEAD_COLS, ellipsis_col)
-		disp.insert(MAX_HEAD_COLS, "...")
-		san.insert(MAX_HEAD_COLS, "...")
-		dtypes_displayed.insert(MAX_HEAD_COLS, "...")
+		disp.insert(MAX_HEAD_COLS, _HIDDEN)
+		san.insert(MAX_HEAD_COLS, _HIDDEN)
+		dtypes_displayed.insert(MAX_HEAD_COLS, _HIDDEN)
 
 	# Build header rows
 	header_rows, show_types_in_header = _header_rows(disp, san, dtypes_displayed)
